@@ -72,6 +72,7 @@ fn dispatch(req: &J) -> J {
     match req.get("op").and_then(J::as_str).unwrap_or("") {
         "analyze" => analyze::handle(req),
         "disasm" => ops::disasm(req),
+        "disasm_sweep" => ops::disasm_sweep(req),
         "fold" => ops::fold(req),
         "unify" => ops::unify(req),
         "merge_batch" => ops::merge_batch(req),
